@@ -145,6 +145,24 @@ def run(case: dict, lean: Lean) -> Outcome:
         same_doc = bt.build_config(include_hash=False).model_dump_json(exclude_none=True) == real      # e.g. an edge that the default connection restores
         if (bt.config_hash() == hash0) != same_doc: failed.append(f"hash {'changed' if same_doc else 'unchanged'} after changing the {t}")
         if t in ("name", "alias") and same_doc: failed.append(f"changing the {t} left the document unchanged")
+    # the hash is a function of the configuration *as it stands*: a builder that has already produced a document / hash and whose default
+    # connection is then re-pointed must describe (and hash) the same pipeline as a builder declared that way from the start
+    if case["defaults"]:
+        leaves = [i["name"] for i in case["inputs"]] + [l["name"] for l in case["literals"]]
+        pn, old_t = case["defaults"][0]
+        others = [n for n in leaves if n != old_t]
+        if others:
+            new_t = others[case["decl_seed"] % len(others)]
+            try:
+                pb.default_connection(pn, pb.node(new_t))
+                fresh = build(dict(case, defaults=[[pn, new_t]] + case["defaults"][1:]))
+                d1 = pb.build_config(include_hash=False).model_dump_json(exclude_none=True); d2 = fresh.build_config(include_hash=False).model_dump_json(exclude_none=True)
+                if d1 != d2 or pb.config_hash() != fresh.config_hash():
+                    failed.append("after re-pointing a default connection the builder's document / hash differ from those of a builder declared that way")
+            except PipelineError: pass          # the new target closes a cycle: rejected, nothing to compare
+            classes_extra = ["default connection re-pointed after hashing"]
+        else: classes_extra = []
+    else: classes_extra = []
     # a tampered recorded hash must warn
     bad = full.model_copy(deep=True); bad.meta.hash = "0" * 64
     with warnings.catch_warnings(record=True) as w:
@@ -168,6 +186,7 @@ def run(case: dict, lean: Lean) -> Outcome:
     if case["aliases"]: classes.append("aliases")
     if case["defaults"]: classes.append("default connections")
     if any(i["types"] and len(i["types"]) > 1 for i in case["inputs"]): classes.append("multi-type input")
+    classes += classes_extra
     if any(c["setting"] is not None for c in case["comps"]): classes.append("configurable component")
     if any(c["kind"] in ("opt", "cls-opt") and c["setting"] % 2 for c in case["comps"]): classes.append("setting explicitly None")
     if case.get("subprocess"): classes.append("other processes")
